@@ -182,12 +182,18 @@ def infer(inference_state, context, leaf):
     return definitions
 
 
-def filter_follow_imports(names, follow_builtin_imports=False):
+def filter_follow_imports(names, follow_builtin_imports=False, _followed=()):
     for name in names:
         if name.is_import():
+            # Names are created on the fly, identify them by their tree name.
+            key = name.tree_name or (name.parent_context, name.string_name)
+            if key in _followed:
+                # An import cycle, there is nothing at the end of it.
+                continue
             new_names = list(filter_follow_imports(
                 name.goto(),
                 follow_builtin_imports=follow_builtin_imports,
+                _followed=_followed + (key,),
             ))
             found_builtin = False
             if follow_builtin_imports:
